@@ -557,13 +557,14 @@ func TestVerif_C04_UDP(t *testing.T) {
 				exitA := m.nodes[tp.Exit].a
 				var hookArmed atomic.Bool
 				reached := make(chan struct{}, 8)
-				release := make(chan struct{})
-				var releaseOnce sync.Once
+				var release atomic.Value // chan struct{} of the current round
+				release.Store(make(chan struct{}))
 				restore := verifhook.Set("udp.read_before_seal", func(args ...any) {
 					if hookArmed.CompareAndSwap(true, false) {
+						rel := release.Load().(chan struct{})
 						reached <- struct{}{}
 						select {
-						case <-release:
+						case <-rel:
 						case <-time.After(1500 * time.Millisecond):
 						}
 					}
@@ -575,8 +576,8 @@ func TestVerif_C04_UDP(t *testing.T) {
 						continue
 					}
 					synced := k%2 == 1
-					release = make(chan struct{})
-					releaseOnce = sync.Once{}
+					rel := make(chan struct{})
+					release.Store(rel)
 					if synced {
 						hookArmed.Store(true)
 					}
@@ -591,7 +592,7 @@ func TestVerif_C04_UDP(t *testing.T) {
 							if exitA.udpHandler != nil && exitA.udpHandler.ActiveCount() == 0 {
 								r.Add("udp_reply_held_between_read_and_seal_across_close", 1)
 							}
-							releaseOnce.Do(func() { close(release) })
+							close(rel)
 						case <-time.After(3 * time.Second):
 							hookArmed.Store(false)
 							c.close()
